@@ -653,7 +653,9 @@ def run_threads(case):
 
 PROBE_OBJS = [0, "", (None, None), (1, 2), False, (), 0.0, "unknown", [None]]
 PROBE_ARGS = [((), {}), ((0,), {}), ((1,), {}), (("x",), {}), ((1,), {"hex": True}), ((None,), {}),
-              ((), {"name": None}), ((1, 2), {})]
+              ((), {"name": None}), ((1, 2), {}),
+              # distinct argument tuples whose HASHES are equal in CPython (hash(-1) == hash(-2) == -2)
+              ((-1,), {}), ((-2,), {}), ((3,), {"scale": -1}), ((3,), {"scale": -2})]
 
 
 def run_probe(case):
